@@ -3,7 +3,7 @@ import itertools
 import numpy as np
 import impl
 from gen import grid, data, unc, material
-from .common import arr, tolist, relerr, keyword_call_differs
+from .common import arr, tolist, relerr, keyword_call_differs, history_differs, confusable
 
 RK = ["S", "F", "FK", "DCS"]
 GK = ["g", "G", "GK"]
@@ -82,8 +82,16 @@ def gen_space(space):
             x[0] = 0.0
         elif r < 0.22:
             x[0] = 5e-324
+        if rng.random() < 0.15 and len(x) > 3:
+            # the conversions are pointwise: the abscissae need not be ascending (stacked datasets each starting at 0, descending grids)
+            x = np.concatenate([x[len(x) // 2:], x[:len(x) // 2]]) if rng.random() < 0.5 else x[::-1].copy()
+            gk = gk + "-unsorted"
         X = kinds[int(rng.integers(0, len(kinds)))]
         y, dk = data(rng, x, base=BASE[X])
+        if rng.random() < 0.3:
+            # reduced function exactly zero at some points (tails decayed to the baseline, zero crossings on grid points)
+            y = y.copy()
+            y[rng.random(len(y)) < 0.3] = BASE[X]
         dy = unc(rng, x)
         kw = material(rng)
         return dict(space=space, X=X, x=tolist(x), y=tolist(y), dy=tolist(dy), kw=kw, grid=gk, data=dk,
@@ -115,6 +123,10 @@ def evaluate_values(case):
             kf = keyword_call_differs(impl.obj("Converter"), f"Converter.{X}_to_{Y}", [xs, ys, None], kw, (out, _u))
             if kf:
                 fails.append(kf)
+            x2 = confusable(np.sort(x))
+            if x2 is not None and len(x) <= 200 and np.all(np.diff(x) > 0):
+                if history_differs("Converter", f"{X}_to_{Y}", (xs, ys, None), kw, [(f"{X}_to_{Y}", (x2, ys, None), kw)]):
+                    fails.append(f"{X}_to_{Y}: the result depends on calls the same Converter served before (a grid with the same length and end points)")
             out = np.asarray(out, dtype=float)
             exp = mk(Y, x, under, kw)
             # finite wherever the exact value is representable (F/Q may honestly overflow for subnormal Q), and always at x <= 0
